@@ -9,6 +9,7 @@ import (
 	"pgregory.net/rapid"
 
 	"verifh/gen"
+	"verifh/grun"
 	"verifh/sx"
 	"verifh/synex"
 	"verifh/vh"
@@ -31,6 +32,14 @@ func genCase(t *rapid.T) Case {
 		c.Cfg.SingleLine = false
 	}
 	c.Simplify = rapid.IntRange(0, 3).Draw(t, "simplify") == 0
+	if rapid.IntRange(0, 15).Draw(t, "simpbait") == 0 {
+		// programs dense in what Simplify rewrites (nested and combined
+		// forms, where one rewrite can enable another): the run-time
+		// generator of C04 with its Simplify bias, in bash
+		c.Lang = rapid.SampledFrom([]string{"bash", "bash", "bats"}).Draw(t, "simplang")
+		c.Src = grun.Program(t, grun.Opts{Simp: true, Noise: rapid.Bool().Draw(t, "simpnoise")})
+		c.Simplify = rapid.IntRange(0, 4).Draw(t, "simpon") > 0
+	}
 	return c
 }
 
